@@ -60,7 +60,13 @@ fn main() {
     util::install_panic_hook();
     let t0 = std::time::Instant::now();
     let report: Report = match prop.as_str() {
+        "DEBUGSQL" => {
+            debug_sql(&p);
+            return;
+        }
         "C06" => mon::c06::run(&p),
+        "C07" => mon::c07::run(&p, mon::c07::Which::C07),
+        "C14" => mon::c07::run(&p, mon::c07::Which::C14),
         "C10" => mon::c10::run(&p),
         "C11" => mon::c11::run(&p),
         "C12" => mon::c12::run(&p),
@@ -78,5 +84,40 @@ fn main() {
     match out {
         Some(path) => std::fs::write(path, text).expect("write report"),
         None => println!("{}", text),
+    }
+}
+
+/// debug helper: `qv DEBUGSQL --sql=...` compiles against a tiny catalogue and prints rendering + staged rows
+pub fn debug_sql(p: &util::Params) {
+    use gen::catalog::*;
+    let mut r = p.rng(p.num("case", 0));
+    let cat = gen_generic(&mut r, 6);
+    let sql = p.extra.get("sql").cloned().unwrap_or_default();
+    println!("{}", serde_json::to_string_pretty(&cat.to_json(8)).unwrap());
+    match mon::execq::compile(&sql, &cat.relations()) {
+        mon::execq::Compiled::Ok(rel) => {
+            println!("{}", rel);
+            if let qrlew::Relation::Map(m) = &rel {
+                use qrlew::data_type::DataTyped;
+                for e in m.projection() {
+                    println!("culprits of {} = {:?}", e, mon::execq::culprits(e, &m.input().data_type()));
+                }
+            }
+            let rendered = mon::execq::render(&rel).unwrap();
+            println!("{}", rendered);
+            let db = exec::sqlite::Db::new(true, exec::sqlite::RandomMode::Counter);
+            cat.load(&db).unwrap();
+            match mon::execq::run_staged(&db, &rendered) {
+                Ok(s) => {
+                    for (n, rows) in s.stages.iter() {
+                        println!("{} -> {}", n, rows.to_json(5));
+                    }
+                    println!("result {}", s.result.to_json(10));
+                }
+                Err(e) => println!("exec error {}", e),
+            }
+        }
+        mon::execq::Compiled::Err(e) => println!("compile error {}", e),
+        mon::execq::Compiled::Panic(p) => println!("panic {} at {}", p.message, p.location),
     }
 }
